@@ -20,12 +20,14 @@ package mqttproxy
 //   TestVerifC15Puback  client -> broker QoS1 PUBLISH: backend hand-off + PUBACK with the same id
 
 import (
+	"encoding/base64"
 	"fmt"
 	"os"
 	"sort"
 	"strings"
 	"testing"
 	"time"
+	"unicode/utf8"
 
 	"github.com/eclipse/paho.mqtt.golang/packets"
 	"github.com/megaease/easegress/pkg/util/ratelimiter"
@@ -35,6 +37,9 @@ import (
 const (
 	vfC15KeyFanout  = "fanout-aborted-at-lower-qos-subscriber"
 	vfC15KeyOverlap = "overlapping-filters-lower-qos-shadows-higher"
+	// an eligible delivery is missed while the trie still routes the topic to a client id that has
+	// no registered connection (its session was deleted while its connection sat idle)
+	vfC15KeyStale = "eligible-subscriber-missed-while-an-unregistered-id-is-routed"
 )
 
 var (
@@ -84,12 +89,40 @@ type vfC15ClientSpec struct {
 	// eligible(c, m) refers to the second, live connection.
 	Takeover string
 	Resub    bool // the last SUBSCRIBE packet replaces the QoS of a held filter
+	// Deleted: before the burst the session of this client is deleted administratively ("admin":
+	// HTTP session-delete endpoint, "store-event": the record disappears from the store as after
+	// another member's delete) while its connection is idle. The broker unregisters and closes the
+	// client (C16), but the connection's read loop only notices at its next packet, which never
+	// comes: the id stays in the topic trie without a registered connection for the whole burst.
+	// The client is not a connected client any more and is not judged; all the others are.
+	Deleted string
 }
 
 type vfC15Msg struct {
 	Topic   string
 	QoS     int
-	Payload string
+	Payload string // the raw bytes
+	Kind    string // "name" | "text" | "binary"
+	B64     bool   // sent with "base64": true (always for binary payloads)
+}
+
+func (m vfC15Msg) String() string {
+	return fmt.Sprintf("{topic %s qos %d payload %s}", m.Topic, m.QoS, m.fmtPayload())
+}
+
+// fmtPayload: names as they are, everything else quoted.
+func (m vfC15Msg) fmtPayload() string {
+	if m.Kind == "name" || m.Kind == "" {
+		return m.Payload
+	}
+	return fmt.Sprintf("%s%q", map[bool]string{true: "b64:", false: ""}[m.B64], m.Payload)
+}
+
+// vfC15B64Special: does the standard base64 form of the payload (the form in which a pending
+// QoS1 message is kept, Message.B64Payload) use one of the two symbols that differ between
+// base64 alphabets ('+' and '/')?
+func vfC15B64Special(payload string) bool {
+	return strings.ContainsAny(base64.StdEncoding.EncodeToString([]byte(payload)), "+/")
 }
 
 type vfC15Case struct {
@@ -116,6 +149,9 @@ func (k vfC15Case) String() string {
 		if c.Takeover != "" {
 			fmt.Fprintf(&sb, " persistent-session-takeover(%s)", c.Takeover)
 		}
+		if c.Deleted != "" {
+			fmt.Fprintf(&sb, " session-deleted-while-idle(%s)", c.Deleted)
+		}
 		if c.Policy.Kind != "" && c.Policy.Kind != "immediate" {
 			fmt.Fprintf(&sb, " %s", c.Policy)
 		}
@@ -123,7 +159,7 @@ func (k vfC15Case) String() string {
 	}
 	sb.WriteString("msgs:")
 	for _, m := range k.Msgs {
-		fmt.Fprintf(&sb, " %s@%d(%s)", m.Topic, m.QoS, m.Payload)
+		fmt.Fprintf(&sb, " %s@%d(%s)", m.Topic, m.QoS, m.fmtPayload())
 	}
 	return sb.String()
 }
@@ -224,6 +260,14 @@ func vfC15GenCase(rt *rapid.T, withPolicies bool) vfC15Case {
 		case 1:
 			c.Takeover = "old-closed"
 		}
+		if !c.Leaves {
+			switch rapid.IntRange(0, 9).Draw(rt, "sessionDeleted?") { // rapid prefers small values: 8 and 9 together come up for about one client in seven
+			case 8:
+				c.Deleted = "admin"
+			case 9:
+				c.Deleted = "store-event"
+			}
+		}
 		c.Policy = vfC15Policy{Kind: "immediate"}
 		if withPolicies {
 			switch rapid.IntRange(0, 5).Draw(rt, "policy") {
@@ -245,9 +289,72 @@ func vfC15GenCase(rt *rapid.T, withPolicies bool) vfC15Case {
 		if q == 2 {
 			q = 1 // two thirds QoS1
 		}
-		k.Msgs = append(k.Msgs, vfC15Msg{Topic: t, QoS: q, Payload: fmt.Sprintf("m%d", j)})
+		m := vfC15Msg{Topic: t, QoS: q}
+		m.Payload, m.Kind, m.B64 = vfC15GenPayload(rt, j, withPolicies)
+		k.Msgs = append(k.Msgs, m)
+	}
+	// someone must be left to judge
+	judged := false
+	for _, c := range k.Clients {
+		if !c.Leaves && c.Deleted == "" {
+			judged = true
+		}
+	}
+	if !judged {
+		k.Clients[0].Deleted = ""
+		k.Clients[0].Leaves = false
 	}
 	return k
+}
+
+// vfC15TextRunes: printable ASCII, punctuation first (rapid prefers the front of a list).
+var vfC15TextRunes = []rune("?>~<+/-_=&%#@!*.,:;'\"()[]{}|^`$ \\0123456789abcdefghijklmnopqrstuvwxyzABCDEFGHIJKLMNOPQRSTUVWXYZ")
+
+// vfC15GenPayload draws the payload of message j of a burst. MQTT payloads are arbitrary byte
+// strings; every payload starts with something that makes it unique within the case (the oracle
+// finds the copies of a message by payload):
+//
+//	name    "m<j>"                                        (the payloads of the earlier rounds)
+//	text    "m<j> " + 0-24 printable ASCII characters, punctuation included
+//	binary  byte(j) + 0-48 bytes, every bit an unbiased draw (all byte values, all lengths mod 3)
+//
+// binary payloads go through the endpoint's "base64": true form, the others through either form.
+func vfC15GenPayload(rt *rapid.T, j int, moreBinary bool) (payload, kind string, b64 bool) {
+	w := rapid.IntRange(0, 9).Draw(rt, "payloadKind")
+	binaryFrom := 7
+	if moreBinary {
+		binaryFrom = 3 // the retransmission test: what is kept pending must come back unchanged
+	}
+	switch {
+	case w == 0 || w == 1:
+		return fmt.Sprintf("m%d", j), "name", rapid.IntRange(0, 3).Draw(rt, "base64Form") == 0
+	case w < binaryFrom:
+		txt := rapid.StringOfN(rapid.RuneFrom(vfC15TextRunes), 0, 24, -1).Draw(rt, "text")
+		return fmt.Sprintf("m%d %s", j, txt), "text", rapid.IntRange(0, 3).Draw(rt, "base64Form") == 0
+	}
+	// length: three unbiased bits choose among lengths of every residue mod 3
+	lb := rapid.SliceOfN(rapid.Bool(), 3, 3).Draw(rt, "lenBits")
+	li := 0
+	for _, b := range lb {
+		li <<= 1
+		if b {
+			li |= 1
+		}
+	}
+	n := []int{0, 1, 2, 4, 9, 17, 30, 48}[li]
+	bits := rapid.SliceOfN(rapid.Bool(), 8*n, 8*n).Draw(rt, "payloadBits")
+	buf := []byte{byte(j)}
+	for i := 0; i < n; i++ {
+		var b byte
+		for _, bit := range bits[8*i : 8*i+8] {
+			b <<= 1
+			if bit {
+				b |= 1
+			}
+		}
+		buf = append(buf, b)
+	}
+	return string(buf), "binary", true
 }
 
 func vfC15Inconclusive(rt *rapid.T, what string, err error) {
@@ -260,6 +367,17 @@ type vfC15Run struct {
 	rig  *vfMqRig
 	cl   []*vfMqClient // nil for none
 	live []bool
+	// stale[i]: client i's session was deleted while its connection was idle: the broker has
+	// unregistered the id, its filters are still in the trie (its read loop has not noticed yet)
+	stale []bool
+}
+
+// publish sends one message of the burst in the form its generator chose.
+func (r *vfC15Run) publish(m vfC15Msg) int {
+	if m.B64 {
+		return r.rig.PublishBytes(m.Topic, m.QoS, []byte(m.Payload))
+	}
+	return r.rig.Publish(m.Topic, m.QoS, m.Payload)
 }
 
 // vfC15Start builds the population and fires the burst; on return every first transmission has
@@ -342,6 +460,46 @@ func vfC15Start(rt *rapid.T, k vfC15Case) *vfC15Run {
 		}
 		r.cl = append(r.cl, c)
 		r.live = append(r.live, true)
+		r.stale = append(r.stale, false)
+	}
+	// administrative session deletes of connected, idle clients. Their records must be in the
+	// store first (a delete of a missing key produces no event).
+	var deleted []int
+	for i, cs := range k.Clients {
+		if cs.Deleted != "" {
+			deleted = append(deleted, i)
+		}
+	}
+	if len(deleted) > 0 {
+		if err := rig.StoreFence(); err != nil {
+			vfC15Inconclusive(rt, "store fence", err)
+		}
+		for _, i := range deleted {
+			cid := fmt.Sprintf("c%d", i)
+			if k.Clients[i].Deleted == "admin" {
+				if code := rig.DeleteSessions(cid); code != 200 {
+					vfC15Inconclusive(rt, "admin delete", fmt.Errorf("status %d", code))
+				}
+			} else {
+				rig.DeleteSessionRecord(cid)
+			}
+		}
+		if _, err := rig.FlushWatch(); err != nil {
+			vfC15Inconclusive(rt, "flush watch", err)
+		}
+		for _, i := range deleted {
+			// C16's clause, a precondition here: the delete unregisters (and closes) that client
+			cid := fmt.Sprintf("c%d", i)
+			deadline := time.Now().Add(vfMqWait)
+			for rig.registered(cid) != nil {
+				if time.Now().After(deadline) {
+					vfC15Inconclusive(rt, "session delete", fmt.Errorf("%s is still registered %v after its session was deleted (C16's business)", cid, vfMqWait))
+				}
+				time.Sleep(200 * time.Microsecond)
+			}
+			r.live[i] = false
+			r.stale[i] = true
+		}
 	}
 	for i, cs := range k.Clients {
 		if cs.Leaves {
@@ -355,7 +513,7 @@ func vfC15Start(rt *rapid.T, k vfC15Case) *vfC15Run {
 		}
 	}
 	for _, m := range k.Msgs {
-		if code := rig.Publish(m.Topic, m.QoS, m.Payload); code != 200 {
+		if code := r.publish(m); code != 200 {
 			vfC15Inconclusive(rt, "http publish", fmt.Errorf("status %d for %+v", code, m))
 		}
 	}
@@ -386,7 +544,7 @@ func (r *vfC15Run) dump() string {
 	var sb strings.Builder
 	fmt.Fprintf(&sb, "case: %s\n", r.k)
 	for i, c := range r.cl {
-		fmt.Fprintf(&sb, "  c%d live=%v subs=%v log: %s\n", i, r.live[i], r.k.subs(i), vfMqFmtEvents(c.Events()))
+		fmt.Fprintf(&sb, "  c%d live=%v unregistered-but-routed=%v subs=%v log: %s\n", i, r.live[i], r.stale[i], r.k.subs(i), vfMqFmtEvents(c.Events()))
 	}
 	return sb.String()
 }
@@ -395,7 +553,7 @@ func (r *vfC15Run) dump() string {
 // matching topic with QoS < q (the situation in which the broker's fan-out loop may stop early).
 func (r *vfC15Run) lowerElsewhere(i int, topic string, q int) bool {
 	for j := range r.cl {
-		if j == i || !r.live[j] {
+		if j == i || !(r.live[j] || r.stale[j]) {
 			continue
 		}
 		for _, sq := range r.k.matchQoS(j, topic) {
@@ -407,9 +565,29 @@ func (r *vfC15Run) lowerElsewhere(i int, topic string, q int) bool {
 	return false
 }
 
+// staleRouted reports whether the trie routes topic to an id without registered connection.
+func (r *vfC15Run) staleRouted(topic string) bool {
+	return r.staleRoutedAt(topic, 0)
+}
+
+// staleRoutedAt: ... and some filter of that id matching topic has QoS >= q.
+func (r *vfC15Run) staleRoutedAt(topic string, q int) bool {
+	for j := range r.cl {
+		if !r.stale[j] {
+			continue
+		}
+		for _, sq := range r.k.matchQoS(j, topic) {
+			if sq >= q {
+				return true
+			}
+		}
+	}
+	return false
+}
+
 // checkDelivery is the first-transmission oracle. It returns false when the case must be
 // abandoned (an unknown violation has already failed the test then).
-func (r *vfC15Run) checkDelivery(rt *rapid.T, vf *vfCollector) (mixed bool) {
+func (r *vfC15Run) checkDelivery(rt *rapid.T, vf *vfCollector) (mixed, besideStale bool) {
 	known := map[string]bool{}
 	for _, m := range r.k.Msgs {
 		known[m.Payload] = true
@@ -455,6 +633,12 @@ func (r *vfC15Run) checkDelivery(rt *rapid.T, vf *vfCollector) (mixed bool) {
 				if m.QoS == 1 && (lower || r.lowerElsewhere(i, m.Topic, m.QoS)) {
 					mixed = true
 				}
+				if r.staleRouted(m.Topic) {
+					// "independently of which other clients are subscribed": one of the other subscriber
+					// ids of this topic has no registered connection
+					besideStale = true
+					vf.Class("pair:eligible-while-an-unregistered-id-is-routed-for-the-topic")
+				}
 				if len(copies) == 0 {
 					// which of the two known defects can explain the miss (the harness cannot see which
 					// entry findSubscribers kept, nor the visit order of the fan-out loop)
@@ -481,7 +665,10 @@ func (r *vfC15Run) checkDelivery(rt *rapid.T, vf *vfCollector) (mixed bool) {
 					}
 					if !handled {
 						key := "eligible-subscriber-missed"
-						if len(cands) > 0 {
+						if r.staleRoutedAt(m.Topic, m.QoS) {
+							// the fan-out had to pass an id it finds no connection for
+							key = vfC15KeyStale
+						} else if len(cands) > 0 {
 							key = cands[0]
 						}
 						vf.Violation(rt, key, "c%d (matching subscription QoS %v) never got message %+v\n%s", i, mq, m, r.dump())
@@ -499,7 +686,7 @@ func (r *vfC15Run) checkDelivery(rt *rapid.T, vf *vfCollector) (mixed bool) {
 			}
 		}
 	}
-	return mixed
+	return mixed, besideStale
 }
 
 func vfC15CountClasses(vf *vfCollector, k vfC15Case) {
@@ -521,6 +708,21 @@ func vfC15CountClasses(vf *vfCollector, k vfC15Case) {
 	if q1 > 0 && q1 < len(k.Msgs) {
 		vf.Class("burst-mixes-qos0-and-qos1")
 	}
+	for _, m := range k.Msgs {
+		vf.Class("payload:" + m.Kind)
+		if m.B64 {
+			vf.Class("payload-sent-in-base64-form")
+		}
+		if m.Kind != "name" {
+			if vfC15B64Special(m.Payload) {
+				vf.Class(fmt.Sprintf("payload-q%d:std-base64-uses-plus-or-slash", m.QoS))
+			}
+			vf.Class(fmt.Sprintf("payload:len%%3=%d", len(m.Payload)%3))
+			if !utf8.ValidString(m.Payload) {
+				vf.Class("payload:not-utf8")
+			}
+		}
+	}
 	for i := range k.Clients {
 		if k.Clients[i].Leaves {
 			vf.Class("client-left-before-burst")
@@ -530,6 +732,9 @@ func vfC15CountClasses(vf *vfCollector, k vfC15Case) {
 		}
 		if k.Clients[i].Resub {
 			vf.Class("client-resubscribed-held-filter-with-other-qos")
+		}
+		if k.Clients[i].Deleted != "" {
+			vf.Class("client-session-deleted-while-connection-idle:" + k.Clients[i].Deleted)
 		}
 		own := map[int]bool{}
 		for _, q := range k.subs(i) {
@@ -550,14 +755,20 @@ func TestVerifC15Fanout(t *testing.T) {
 		r := vfC15Start(rt, k)
 		defer r.rig.Close()
 		vfC15CountClasses(vf, k)
-		mixed := r.checkDelivery(rt, vf)
+		mixed, besideStale := r.checkDelivery(rt, vf)
 		if mixed {
 			vf.Class("nontrivial:mixed-qos-population-for-a-qos1-message")
+		}
+		if besideStale {
+			vf.Class("nontrivial:eligible-subscriber-beside-an-unregistered-routed-id")
 		}
 		if r.rig.SawFanout > 0 {
 			vf.Class("barrier-saw-fanout-goroutine")
 		}
-		vf.Case(mixed, "fanout|"+k.String(), func() interface{} {
+		if r.rig.SawDelete > 0 {
+			vf.Class("barrier-saw-deleteSession-goroutine")
+		}
+		vf.Case(mixed || besideStale, "fanout|"+k.String(), func() interface{} {
 			return map[string]interface{}{"test": "fanout", "case": k.String()}
 		})
 	})
@@ -572,9 +783,13 @@ func TestVerifC15Resend(t *testing.T) {
 		r := vfC15Start(rt, k)
 		defer r.rig.Close()
 		vfC15CountClasses(vf, k)
-		mixed := r.checkDelivery(rt, vf)
+		mixed, besideStale := r.checkDelivery(rt, vf)
 
 		// --- retransmission while unacknowledged
+		kindOf := map[string]string{}
+		for _, m := range k.Msgs {
+			kindOf[m.Payload] = m.Kind
+		}
 		withheld := false
 		start := time.Now()
 		for i, c := range r.cl {
@@ -595,6 +810,22 @@ func TestVerifC15Resend(t *testing.T) {
 			w := ids
 			if len(w) > pol.D {
 				w = w[:pol.D]
+			}
+			// what has to come back: the payloads the broker keeps pending for this connection
+			required := w
+			if pol.Kind == "never" {
+				required = w[:1]
+			}
+			for _, id := range required {
+				for _, e := range c.Publishes("") {
+					if e.QoS == 1 && e.ID == id {
+						vf.Class("retransmission-required:payload-" + kindOf[e.Payload])
+						if vfC15B64Special(e.Payload) {
+							vf.Class("retransmission-required:payload-std-base64-uses-plus-or-slash")
+						}
+						break
+					}
+				}
 			}
 			// The broker retransmits the oldest unacknowledged packet of a session on every tick
 			// (in-order redelivery): w[0] is that packet until it is acknowledged.
@@ -679,7 +910,10 @@ func TestVerifC15Resend(t *testing.T) {
 		if mixed {
 			vf.Class("nontrivial:mixed-qos-population-for-a-qos1-message")
 		}
-		vf.Case(withheld || mixed, "resend|"+k.String(), func() interface{} {
+		if besideStale {
+			vf.Class("nontrivial:eligible-subscriber-beside-an-unregistered-routed-id")
+		}
+		vf.Case(withheld || mixed || besideStale, "resend|"+k.String(), func() interface{} {
 			return map[string]interface{}{"test": "resend", "case": k.String()}
 		})
 	})
